@@ -191,3 +191,7 @@ def rel(case):
     sibling = _rbox(case['tree'])
     r = block.relative_positioning(box, (Fraction(case['cbw']), Fraction(case['cbh'])))
     return {'ret': r is None, 'pos': _positions(box, []), 'sibling': _positions(sibling, [])}
+
+
+def dispatch(case):
+    return globals()[case['fn']](case['case'])
